@@ -350,6 +350,37 @@ pub fn body(mask: u32) -> TransactionBody<'static> {
     }
 }
 
+/// `full` with the optional fields not selected by `mask` cleared.
+pub fn body_from(full: &TransactionBody<'static>, mask: u32) -> TransactionBody<'static> {
+    let b = |i: u32| mask & (1 << i) != 0;
+    let mut t = full.clone();
+    macro_rules! clear {
+        ($i:expr, $f:ident) => {
+            if !b($i) {
+                t.$f = None;
+            }
+        };
+    }
+    clear!(0, ttl);
+    clear!(1, certificates);
+    clear!(2, withdrawals);
+    clear!(3, auxiliary_data_hash);
+    clear!(4, validity_interval_start);
+    clear!(5, mint);
+    clear!(6, script_data_hash);
+    clear!(7, collateral);
+    clear!(8, required_signers);
+    clear!(9, network_id);
+    clear!(10, collateral_return);
+    clear!(11, total_collateral);
+    clear!(12, reference_inputs);
+    clear!(13, voting_procedures);
+    clear!(14, proposal_procedures);
+    clear!(15, treasury_value);
+    clear!(16, donation);
+    t
+}
+
 pub fn witness_set(mask: u32) -> WitnessSet<'static> {
     let b = |i: u32| mask & (1 << i) != 0;
     WitnessSet {
@@ -380,9 +411,8 @@ pub fn run(r: &mut Runner) {
         "conway::ProtocolParamUpdate",
         ProtocolParamUpdate,
         eq,
-        al::field_masks(30, true).into_iter().map(|m| (format!("mask={m:#x}"), ppu(m))).collect()
+        al::sweep_masks(PPU_FIELDS, r.ctx.thorough).into_iter().map(|m| (format!("mask={m:#x}"), ppu(m))).collect::<Vec<_>>()
     );
-    let _ = PPU_FIELDS;
     rt!(
         r,
         "conway::Update",
@@ -422,10 +452,14 @@ pub fn run(r: &mut Runner) {
         "conway::TransactionBody",
         TransactionBody<'_>,
         raw,
-        al::all_masks(17).into_iter().map(|m| (al::mask_label(m, &BODY_NAMES), body(m))).collect()
+        {
+            use rayon::prelude::*;
+            let full = body(0x1ffff);
+            al::all_masks(17).into_par_iter().map(move |m| (al::mask_label(m, &BODY_NAMES), body_from(&full, m)))
+        }
     );
     let wnames = ["vkeywitness", "native_script", "bootstrap_witness", "plutus_v1_script", "plutus_data", "redeemer", "plutus_v2_script", "plutus_v3_script"];
-    rt!(r, "conway::WitnessSet", WitnessSet<'_>, raw, al::all_masks(8).into_iter().map(|m| (al::mask_label(m, &wnames), witness_set(m))).collect());
+    rt!(r, "conway::WitnessSet", WitnessSet<'_>, raw, al::all_masks(8).into_iter().map(|m| (al::mask_label(m, &wnames), witness_set(m))).collect::<Vec<_>>());
     let mut txs: Vec<(String, Tx<'static>)> = vec![];
     for (i, aux) in [Nullable::Null, Nullable::Undefined, Nullable::Some(KeepRaw::from(al::aux_datas()[14].clone()))].into_iter().enumerate() {
         for success in [true, false] {
